@@ -35,7 +35,7 @@ TR1 0.0 0.0 0.5 1.0 0.0 0.0 0.0 -1.0 0.0 0.0 0.0 -1.0
 m1 13027 1.0
 m2 1001 2.0 8016 1.0
 m3 26056 -0.9 6000 -0.1
-imp:p 1.0 1.0 1.0 1.0 0.0
+imp:p 1.0 2.0 3.0 6.0 6.0
 mode n p
 nps 10
 """
@@ -103,9 +103,16 @@ def _expand(cards):
             g = []
             for tok in f:
                 m = re.fullmatch(r'(\d*)r', tok) if isinstance(tok, str) else None
+                mm = re.fullmatch(r'(\d+)m', tok) if isinstance(tok, str) else None
                 if m and g:
                     g += [g[-1]] * (int(m.group(1)) if m.group(1) else 1)
+                elif mm and g and isinstance(g[-1], tuple):
+                    g.append(('number', g[-1][1] * int(mm.group(1))))
+                elif tok == '1i' and g:
+                    g.append('interpolate-one')
                 else:
+                    if g and g[-1] == 'interpolate-one' and isinstance(tok, tuple) and isinstance(g[-2], tuple):
+                        g[-1] = ('number', (g[-2][1] + tok[1]) / 2)
                     g.append(tok)
             new_fields.append(g)
         out.append((typ, new_fields))
